@@ -283,6 +283,7 @@ pub fn c04(cx: &Cx) -> i32 {
     rep.assumptions = vec![
         "the type-level helper-attribute set carries no derive_ex entries (it is built with derive_ex = false; those entries are the derive entries themselves)".into(),
         "whether an ignored / unused field reaches its field-level bound(...) is not documented and not judged".into(),
+        "`Bound::parse` (which tokens inside bound(...) are a type, a predicate or `..`) is syn ParseStream logic and is trusted, not modelled".into(),
     ];
     rep.finish("other", "static analysis: for every builder role and every path, the ordered trace of where-clause pushes (classified by the declared types of the pushed places, not by names) equals the documented resolution: type level (helper chain most specific first, per-trait, shared), then per variant, then per field, each level reached only while all earlier levels of its own scope chain continue; plus the decision model of Bounds::from / push (absent, bound(), `..`) and of the where-clause builder", "rule instances = (role, successful path)")
 }
